@@ -149,12 +149,21 @@ func (f *Font) makePrivateDict(idx int, defaultWidth, nominalWidth float64) cffD
 		privateDict[opForceBold] = []interface{}{int32(1)}
 	}
 
-	if defaultWidth != 0 {
-		privateDict[opDefaultWidthX] = []interface{}{int32(defaultWidth)}
+	if defaultWidth != 0 && !math.IsInf(defaultWidth, 0) {
+		privateDict[opDefaultWidthX] = []interface{}{dictNumber(defaultWidth)}
 	}
-	if nominalWidth != 0 {
-		privateDict[opNominalWidthX] = []interface{}{int32(nominalWidth)}
+	if nominalWidth != 0 && !math.IsInf(nominalWidth, 0) {
+		privateDict[opNominalWidthX] = []interface{}{dictNumber(nominalWidth)}
 	}
 
 	return privateDict
+}
+
+// dictNumber converts x to a DICT operand.  Integers are stored as int32,
+// all other values are stored as real numbers.
+func dictNumber(x float64) interface{} {
+	if x == math.Trunc(x) && math.Abs(x) <= math.MaxInt32 {
+		return int32(x)
+	}
+	return x
 }
